@@ -49,7 +49,7 @@ func skipXattr(key string) bool {
 	return false
 }
 
-func setUnixOpt(fi os.FileInfo, stat *types.Stat, path string, seenFiles map[uint64]string) {
+func setUnixOpt(fi os.FileInfo, stat *types.Stat, path string, seenFiles map[inodeKey]string) {
 	s := fi.Sys().(*syscall.Stat_t)
 
 	stat.Uid = s.Uid
@@ -62,7 +62,7 @@ func setUnixOpt(fi os.FileInfo, stat *types.Stat, path string, seenFiles map[uin
 			stat.Devminor = int64(minor(uint64(s.Rdev)))
 		}
 
-		ino := s.Ino
+		ino := inodeKey{dev: uint64(s.Dev), ino: uint64(s.Ino)}
 		linked := false
 		if seenFiles != nil {
 			if s.Nlink > 1 {
